@@ -421,7 +421,11 @@ func (E *Engine) verifyFunc(key string) *FuncResult {
 		hide = ct.Hide
 	}
 	spec := E.specText(uses, hide)
-	lits := E.U.litDecls()
+	litTexts := []string{spec}
+	for _, p := range x.paths {
+		litTexts = append(litTexts, p.Script)
+	}
+	lits := E.U.litDeclsFor(litTexts...)
 	fr.Paths = len(x.paths)
 	fr.PathInfo = x.paths
 	for k := range x.inlined {
